@@ -26,6 +26,7 @@ import (
 	"strconv"
 	"strings"
 	"time"
+	"unsafe"
 
 	"github.com/miekg/dns"
 	"github.com/semihalev/sdns/config"
@@ -37,7 +38,45 @@ import (
 )
 
 // base is the instant op-line time 0 stands for.
-var base = time.Date(2026, 1, 2, 3, 4, 5, 0, time.UTC)
+// base is the instant op-line time 0 stands for. It is a real clock reading, so it
+// (and everything derived from it with Add) carries Go's MONOTONIC reading: op-line
+// times are elapsed time, which is what a lease is measured in.
+var base = time.Now()
+
+// wallStep is how far the wall clock "was set back" for times written with a
+// trailing `~` on an op line (NTP step, VM restored from a snapshot, `date -s`):
+// same monotonic reading, wall reading one hour earlier. Nothing a lease is compared
+// with may depend on it.
+const wallStep = time.Hour
+
+// stepWallBack fabricates t as the process would read it after the wall clock was
+// set back by d: time.Time is {wall uint64; ext int64; loc *Location}; with the top
+// bit of wall set, bits 30..62 are the wall seconds and ext the monotonic reading.
+func stepWallBack(t time.Time, d time.Duration) (time.Time, bool) {
+	type repr struct {
+		wall uint64
+		ext  int64
+		loc  *time.Location
+	}
+	if unsafe.Sizeof(t) != unsafe.Sizeof(repr{}) {
+		return t, false
+	}
+	stepped := t
+	r := (*repr)(unsafe.Pointer(&stepped))
+	if r.wall&(1<<63) == 0 {
+		return t, false
+	}
+	r.wall -= uint64(d/time.Second) << 30
+	if stepped.Sub(t) != 0 || t.Round(0).Sub(stepped.Round(0)) != d {
+		return t, false
+	}
+	return stepped, true
+}
+
+func hasMono(t time.Time) bool { return strings.Contains(t.String(), " m=") }
+
+// offs is the numeric part of an op-line time.
+func offs(s string) int64 { return vlib.AtoI64(strings.TrimSuffix(s, "~")) }
 
 const twelveH = int64(12 * 3600 * 1e9)
 
@@ -45,7 +84,11 @@ func parseT(s string) time.Time {
 	if s == "z" {
 		return time.Time{}
 	}
-	return base.Add(time.Duration(vlib.AtoI64(s)))
+	t := base.Add(time.Duration(offs(s)))
+	if strings.HasSuffix(s, "~") {
+		t, _ = stepWallBack(t, wallStep)
+	}
+	return t
 }
 
 func fmtT(t time.Time) string {
@@ -130,7 +173,7 @@ func execFn(f []string) vlib.Res {
 		ac.SetUntil(key, nil, tagServers(tag), t)
 		now := int64(acNow.Sub(base))
 		if f[4] != "z" {
-			if e := vlib.AtoI64(f[4]); e > now {
+			if e := offs(f[4]); e > now {
 				refMap[key] = [2]int64{int64(tag), min64(e, now+twelveH)}
 			}
 		}
@@ -384,7 +427,17 @@ func exec(op string) vlib.Res {
 
 var ttlPool = []int64{-5, -1, 0, 1, 2, 5, 60, 3600, 43199, 43200, 43201, 86400, 604800}
 
-func genT(r *vlib.R, around []int64) string {
+// tilde marks a time as read after the wall clock was stepped back (see wallStep)
+func tilde(r *vlib.R, t string) string {
+	if t != "z" && r.Chance(1, 4) {
+		return t + "~"
+	}
+	return t
+}
+
+func genT(r *vlib.R, around []int64) string { return tilde(r, genT0(r, around)) }
+
+func genT0(r *vlib.R, around []int64) string {
 	if r.Chance(1, 8) {
 		return "z"
 	}
@@ -430,6 +483,7 @@ func genFnCase(r *vlib.R, emit func(string)) int {
 		}
 	case 0, 1: // authority cache history
 		e("ac new")
+		stepped := false
 		now := int64(0)
 		var marks []int64
 		k := 6 + r.Intn(14)
@@ -452,7 +506,7 @@ func genFnCase(r *vlib.R, emit func(string)) int {
 				}
 				e(fmt.Sprintf("ac setuntil %d %d %s", key, i+1, t))
 				if t != "z" {
-					marks = append(marks, vlib.AtoI64(t))
+					marks = append(marks, offs(t))
 				}
 				marks = append(marks, now+twelveH)
 			case 3:
@@ -464,7 +518,14 @@ func genFnCase(r *vlib.R, emit func(string)) int {
 				} else {
 					now += int64(r.Intn(5000)) * 1e9
 				}
-				e(fmt.Sprintf("ac now %d", now))
+				if r.Chance(1, 6) {
+					stepped = !stepped // the wall clock is set back (or forward again) while leases are live
+				}
+				if stepped {
+					e(fmt.Sprintf("ac now %d~", now))
+				} else {
+					e(fmt.Sprintf("ac now %d", now))
+				}
 			case 4:
 				if r.Chance(1, 4) {
 					e(fmt.Sprintf("ac remove %d", key))
@@ -485,7 +546,7 @@ func genFnCase(r *vlib.R, emit func(string)) int {
 			a := genT(r, nil)
 			var around []int64
 			if a != "z" {
-				around = []int64{vlib.AtoI64(a)}
+				around = []int64{offs(a)}
 			}
 			e(fmt.Sprintf("mc %s %d %s %d", a, r.Intn(5), genT(r, around), 5+r.Intn(5)))
 			e(fmt.Sprintf("mnz %s %s", a, genT(r, around)))
@@ -532,7 +593,7 @@ func genFnCase(r *vlib.R, emit func(string)) int {
 			}
 			// SetUntil happens later than the observation (validation latency)
 			now2 := obs + vlib.Pick(r, []int64{0, 1, 5e6, 1e9, 2e9, 5e9, int64(ns) * 1e9, int64(ns)*1e9 - 1})
-			e(fmt.Sprintf("lease %d %d %s %s %d %d %d", obs, ns, ds, cut, 7, 9, now2))
+			e(fmt.Sprintf("lease %d %d %s %s %d %d %s", obs, ns, ds, tilde(r, cut), 7, 9, tilde(r, fmt.Sprint(now2))))
 		}
 	case 6:
 		e("meta new")
@@ -540,7 +601,7 @@ func genFnCase(r *vlib.R, emit func(string)) int {
 		for i := 0; i < 4+r.Intn(6); i++ {
 			t := genT(r, seen)
 			if t != "z" {
-				seen = append(seen, vlib.AtoI64(t))
+				seen = append(seen, offs(t))
 			}
 			e(fmt.Sprintf("meta bound %s %d", t, r.Intn(9)))
 		}
@@ -554,7 +615,7 @@ func genFnCase(r *vlib.R, emit func(string)) int {
 				cut = strconv.FormatInt(stored+vlib.Pick(r, []int64{1e9, 2e9, 5e9, 4e9, 6e9, 60e9, 3600e9, -1e9})+int64(r.Range(-1, 1)), 10)
 			}
 			now := stored + vlib.Pick(r, []int64{0, 1e9, 2e9, 2e9 - 1, 2e9 + 1, 5e9, 5e9 - 1, 60e9, 86400e9}) + int64(r.Range(-1, 1))
-			e(fmt.Sprintf("rem %d %d %s %d", stored, ttl, cut, now))
+			e(fmt.Sprintf("rem %d %d %s %s", stored, ttl, tilde(r, cut), tilde(r, fmt.Sprint(now))))
 		}
 	}
 	return n
@@ -606,9 +667,53 @@ func facts() map[string]any {
 		"maximumTTL_ns":    int64(authority.VerifC08MaximumTTL()),
 		"lease_ceiling_ns": int64(authority.VerifC08LeaseCeiling()),
 	}
+	for k, v := range monoFacts() {
+		out[k] = v
+	}
 	for k, v := range shapeFacts(filepath.Join(repoDir(), "middleware/resolver/resolver.go")) {
 		out[k] = v
 	}
+	return out
+}
+
+// monoFacts: every place that STORES or hands on a lease deadline keeps the monotonic
+// clock reading of the value it was given (a `.UTC()`, `.Round(0)`, `.Local()`, a
+// round trip through Unix()… strips it, and from then on a wall-clock step moves the
+// lease). Read from the compiled code by passing a real clock reading through.
+func monoFacts() map[string]any {
+	now := time.Now()
+	dl := now.Add(90 * time.Second)
+	out := map[string]any{}
+	c := authority.NewCache()
+	authority.VerifC08SetNow(c, func() time.Time { return now })
+	c.SetUntil(1, nil, tagServers(1), dl)
+	c.Set(2, nil, tagServers(2), 90*time.Second)
+	ok1, ok2 := false, false
+	if d, err := c.Get(1); err == nil {
+		ok1 = hasMono(d.ExpiresAt) && d.ExpiresAt.Sub(dl) == 0
+	}
+	if d, err := c.Get(2); err == nil {
+		ok2 = hasMono(d.ExpiresAt)
+	}
+	out["mono_delegation_setuntil"] = ok1
+	out["mono_delegation_set"] = ok2
+	t1, _ := resolver.VerifC08MinCut(time.Time{}, 0, dl, 1)
+	t2, _ := resolver.VerifC08MinCut(dl.Add(time.Second), 0, dl, 1)
+	t3, _ := resolver.VerifC08MinCut(dl, 0, dl.Add(time.Second), 1)
+	out["mono_mincut"] = hasMono(t1) && hasMono(t2) && hasMono(t3) &&
+		hasMono(resolver.VerifC08MinNonZero(dl, time.Time{})) && hasMono(resolver.VerifC08MinNonZero(dl.Add(time.Second), dl))
+	var m middleware.ResponseMeta
+	m.BoundCutFor(dl, 1)
+	got, _ := m.Cut()
+	out["mono_meta_cut"] = hasMono(got) && hasMono(m.CutUntil())
+	cc := cache.New(&config.Config{CacheSize: 1024, Expire: 600})
+	e1, s1, e2 := cache.VerifC08EntryTimes(cc, dl)
+	out["mono_entry_cut"] = hasMono(e1)
+	out["mono_entry_stored"] = hasMono(s1)
+	out["mono_entry_cut_after_refresh"] = hasMono(e2)
+	cc.Stop()
+	_, stepOK := stepWallBack(now, wallStep)
+	out["wallstep_fabrication_works"] = stepOK
 	return out
 }
 
